@@ -26,19 +26,19 @@ Definition regex_sites : list re_site := [
   (* interp/interp.go:47 *)
   mkReSite "interp" "interp.go" "(package variable)" "MustCompile" "`(?s)^([_a-zA-Z][_a-zA-Z0-9]*)=(.*)`"
     (TPkgVar "varRegex") false [] false;
-  (* interp/interp.go:901 *)
-  mkReSite "interp" "interp.go" "setSpecial" "Compile" "compiler.AddRegexFlags(p.fieldSep)"
+  (* interp/interp.go:903 *)
+  mkReSite "interp" "interp.go" "setSpecial" "Compile" "compiler.AddRegexFlags(fieldSep)"
     (TLocal "re") true [] true;
-  (* interp/interp.go:927 *)
+  (* interp/interp.go:931 *)
   mkReSite "interp" "interp.go" "setSpecial" "MustCompile" "sep"
     (TField "p.recordSepRegex") true [] true;
-  (* interp/interp.go:932 *)
+  (* interp/interp.go:936 *)
   mkReSite "interp" "interp.go" "setSpecial" "MustCompile" "sep"
     (TField "p.recordSepRegex") true [] true;
-  (* interp/interp.go:935 *)
-  mkReSite "interp" "interp.go" "setSpecial" "Compile" "compiler.AddRegexFlags(p.recordSep)"
+  (* interp/interp.go:939 *)
+  mkReSite "interp" "interp.go" "setSpecial" "Compile" "compiler.AddRegexFlags(recordSep)"
     (TLocal "re") true [] true;
-  (* interp/interp.go:1096 *)
+  (* interp/interp.go:1101 *)
   mkReSite "interp" "interp.go" "compileRegex" "Compile" "compiler.AddRegexFlags(regex)"
     (TLocal "re") true [] true;
   (* internal/compiler/compiler.go:1114 *)
